@@ -200,11 +200,12 @@ fn pos(n: u64) -> Position {
     Position::try_from(n as usize).unwrap()
 }
 /// the index of a record stream whose first record starts at virtual position 0
-fn gen_indexed<I>(rng: &mut Rng, ms: u8, d: u8, nref: usize, hdr: Option<Header>) -> csi::binning_index::Index<I>
+fn gen_indexed<I>(rng: &mut Rng, ms: u8, d: u8, nref: usize, hdr: Option<Header>, cap: u64) -> csi::binning_index::Index<I>
 where
     I: csi::binning_index::index::reference_sequence::Index + Default,
 {
-    let maxp = (1u64 << (ms as u64 + 3 * d as u64)) - 1;
+    // [cap] bounds the positions (a tabix linear index has one entry per 16 KiB window up to the last record)
+    let maxp = ((1u64 << (ms as u64 + 3 * d as u64)) - 1).min(cap);
     let mut ix = Indexer::<I>::new(ms, d);
     if let Some(h) = hdr {
         ix = ix.set_header(h);
@@ -235,7 +236,7 @@ fn gen_csi_payload(rng: &mut Rng) -> Vec<u8> {
     let (ms, d) = *rng.pick(&[(14u8, 5u8), (12, 4), (14, 6), (3, 2), (1, 0)]);
     let hdr = if rng.chance(1, 2) { Some(gen_header(rng, nref)) } else { None };
     let index: csi::Index = if rng.chance(1, 3) {
-        gen_indexed::<BinnedIndex>(rng, ms, d, nref, hdr)
+        gen_indexed::<BinnedIndex>(rng, ms, d, nref, hdr, u64::MAX)
     } else {
         let refs: Vec<ReferenceSequence<BinnedIndex>> = (0..nref)
             .map(|_| {
@@ -263,7 +264,7 @@ fn gen_tbi_payload(rng: &mut Rng) -> Vec<u8> {
     let nref = rng.below(4) as usize;
     let hdr = gen_header(rng, nref);
     let index: tabix::Index = if rng.chance(1, 3) {
-        gen_indexed::<LinearIndex>(rng, 14, 5, nref, Some(hdr))
+        gen_indexed::<LinearIndex>(rng, 14, 5, nref, Some(hdr), 16384 * 24)
     } else {
         let refs: Vec<ReferenceSequence<LinearIndex>> = (0..nref)
             .map(|_| {
